@@ -240,6 +240,11 @@ def gen(rng, tier, index):
     # routing layer (web/front_end.py), with the shipped kind of manifest
     # that has no entries of its own for these two pages
     front = how in ('stop_current', 'stop_all') and rng.random() < 0.35
+    if bg and how == 'stop_job' and rng.random() < 0.6:
+        # /stop/<path> for a background script (listed in the manifest) while
+        # foreground jobs come and go: the page forwards the stop only if the
+        # controller reports that script as running
+        front = True
     return {'policy': pol, 'population': pop, 'tick': tick, 'shape': shape,
             'start': [hour, minute, second], 'main': text,
             'followers': followers, 'how': how, 'timing': timing,
@@ -451,6 +456,10 @@ def execute(scenario, chooser):
         env.install_web()
         if sc.get('front'):
             injection.bind_instance(wa).to(i_web.WebApp)
+            if sc['how'] == 'stop_job':
+                from web.web_app import ScriptControl
+                wa._scripts['main'] = ScriptControl(
+                    'main.ls', bool(sc.get('bg')), 'Main', 'main')
 
         def front_route(path):
             # what the page shows afterwards (or that rendering it fails for
@@ -499,7 +508,10 @@ def execute(scenario, chooser):
                 if how == 'agent':
                     agent.request_stop()
                 elif how == 'stop_job':
-                    wa.stop_script('main')
+                    if sc.get('front'):
+                        front_route('/stop/main')
+                    else:
+                        wa.stop_script('main')
                 elif how == 'stop_current':
                     if sc.get('front'):
                         front_route('/stop-current')
@@ -532,7 +544,10 @@ def execute(scenario, chooser):
                     if how == 'agent':
                         agent.request_stop()
                     elif how == 'stop_job':
-                        wa.stop_script('main')
+                        if sc.get('front'):
+                            front_route('/stop/main')
+                        else:
+                            wa.stop_script('main')
                     elif how == 'stop_current':
                         if sc.get('front'):
                             front_route('/stop-current')
